@@ -511,16 +511,21 @@ def judge (f out : List String) : Verdict :=
         let cfl := if cfl0 == "=" then crt else cfl0
         let gbrt := if gbrt0 == "=" then gbx else gbrt0
         let gfrt := if gfrt0 == "=" then gfx else gfrt0
+        let marshalSame := jtext == toStr mJ.print
+        let writeSame := ftext == toStr mJ.printIndent
         let corrParts : List (String × Bool) := [
-          ("marshal", sameJ (jsonOf jtext) mJ),
           -- byte for byte: json.Marshal's text is the Lean printer's text (the premise of the text-level theorems)
-          ("marshal-text", !dom || jtext == toStr mJ.print),
+          ("marshal-text", !dom || marshalSame),
+          -- read as a value (when the bytes agree, `json_text_roundtrip` says the reader returns `mJ`: not re-run)
+          ("marshal", marshalSame || sameJ (jsonOf jtext) mJ),
           ("parse", crt == cRt),
           -- before the round trip only features that are linked to `x` report a sequence the property speaks
           -- about; what GetSequence does on a nil or foreign parent pointer is not compared
           ("getseq-before", !ascii || getSeqLinkedSame x gsx),
           ("getseq-after", !ascii || gsrt == getSeqs mRt),
-          ("write", sameJ (jsonOf ftext) mJ),
+          -- byte for byte: the file polyjson.Write leaves (MarshalIndent) is the Lean printer's indented text
+          ("write-text", !dom || writeSame),
+          ("write", writeSame || sameJ (jsonOf ftext) mJ),  -- (`json_indent_roundtrip`)
           ("read", crd == cRt),
           ("read-history", crd2 == cRt && crd3 == cRt && crd4 == cRt),
           ("lean-json", cfl == cRt),
@@ -594,7 +599,8 @@ def judge (f out : List String) : Verdict :=
         let mJ := toJ x
         let cRt := canon (polyjsonParse mJ)
         let corrParts : List (String × Bool) := [
-          ("marshal", sameJ (jsonOf jtext) mJ), ("marshal-text", !inDomain x || jtext == toStr mJ.print),
+          ("marshal-text", !inDomain x || jtext == toStr mJ.print),
+          ("marshal", jtext == toStr mJ.print || sameJ (jsonOf jtext) mJ),
           ("parse", crt == cRt),
           ("build", direct == via && direct == viaFile && direct == viaPipe && direct == viaWrite)]
         let badCorr := corrParts.filter (!·.2)
